@@ -367,6 +367,68 @@ def run_shard(campaign, shard, nshards, seed, tier):
                 part.violation('correspondence', campaign, 'corr:readdress', 'model (built with the new address) differs at op %d' % d,
                                {'insts': [inst], 'constructed_with': old, 'ops': pr.case['ops'][:d + 1]},
                                {'impl_line': pr.lines[d], 'model_line': ml_[d], 'theorem_or_correspondence': THEOREMS})
+    elif campaign == 'canstack':
+        # the python-can glue (CanStack): the can.Message objects handed to bus.send() carry the reference frames unchanged -
+        # identifier, flags, data - and are consistent for python-can (Message.dlc is the byte count of the data)
+        import can, isotp, warnings
+
+        class FakeBus(can.BusABC):
+            def __init__(self):
+                self.sent = []
+                self.inbox = []
+                self.channel_info = 'fake'
+                self._is_shutdown = False
+
+            def send(self, msg, timeout=None):
+                self.sent.append(msg)
+
+            def _recv_internal(self, timeout):
+                return (self.inbox.pop(0) if self.inbox else None), False
+
+            def recv(self, timeout=None):
+                return self.inbox.pop(0) if self.inbox else None
+
+            def shutdown(self):
+                self._is_shutdown = True
+        n = (40 if quick else 2000) // nshards + 1
+        for i in range(n):
+            tx_dl = rng.choice([8, 12, 16, 64])
+            mode = rng.choice(MODES)
+            a = rand_address(rng, mode)
+            params = {'tx_data_length': tx_dl, 'blocksize': 0, 'stmin': 0}
+            if tx_dl > 8:
+                params['can_fd'] = True
+                params['bitrate_switch'] = rng.random() < 0.5
+            if rng.random() < 0.3:
+                params['tx_padding'] = 0xAA
+            inst = {'txa': a, 'rxa': None, 'params': params}
+            setup_spec(m, inst)
+            rid, ext, pfx = reach(inst)
+            bus = FakeBus()
+            with warnings.catch_warnings():
+                warnings.simplefilter('ignore')
+                stack = isotp.CanStack(bus, address=make_layer_address(inst), params=dict(params))
+                payload = bytes(rng.getrandbits(8) for _ in range(rng.choice([3, tx_dl - 1, tx_dl + 5, 5 * tx_dl])))
+                stack.send(payload)
+                for step in range(60):
+                    stack.process()
+                    if not stack.transmitting():
+                        break
+                    bus.inbox.append(can.Message(arbitration_id=rid, data=pfx + bytes([0x30, 0, 0]), is_extended_id=bool(ext)))
+            exp = m.query('seg - ' + hx(payload)).split()
+            got = ['%x:%d:%d:%d:%s' % (x.arbitration_id, int(x.is_extended_id), int(x.is_fd), int(x.bitrate_switch), hx(bytes(x.data))) for x in bus.sent]
+            want = ['%s:%s:%s:%s:%s' % tuple(e.split(':')[k_] for k_ in (0, 1, 2, 3, 5)) for e in exp]
+            part.d['evaluations'] += 1
+            part.distinct(('canstack', tx_dl, mode, len(payload)))
+            part.hist('class', 'canstack/tx_dl=%d' % tx_dl)
+            bad = [x for x in bus.sent if x.dlc != len(x.data)]
+            if got != want:
+                part.violation('oracle', campaign, 'C02:frame-differs-from-reference-segmentation',
+                               'CanStack handed %s to bus.send(), reference %s' % (got[:2], want[:2]), {'inst': inst, 'len': len(payload)})
+            elif bad:
+                part.violation('oracle', campaign, 'C02:can-message-dlc-inconsistent',
+                               'CanStack handed python-can a Message with dlc=%d for %d data bytes (python-can counts bytes)' % (bad[0].dlc, len(bad[0].data)),
+                               {'inst': inst, 'len': len(payload)})
     return part.result()
 
 
@@ -374,6 +436,7 @@ def run(ctx):
     run_sharded(ctx, 'C02', 'standby')
     run_sharded(ctx, 'C02', 'duplex')
     run_sharded(ctx, 'C02', 'readdress')
+    run_sharded(ctx, 'C02', 'canstack')
     run_sharded(ctx, 'C02', 'lengths')
     run_sharded(ctx, 'C02', 'huge')
     ctx.exhaustive['payload lengths 1..N for every configuration class'] = True
